@@ -284,9 +284,9 @@ def body_specs():
 
 
 # incompressible ones: a pseudo-random block doubled d times under xor masks (cheap for the model: no per-byte arithmetic)
-BIG_BODIES = [("64Kr", xl(xn(3), xn(9), xn(4096), xn(4))), ("64Kz", xl(xn(1), xn(97), xn(65536))), ("1Mz", xl(xn(1), xn(0), xn(1048576))),
-              ("1Mr", xl(xn(3), xn(5), xn(4096), xn(8))), ("64K+r", xl(xn(3), xn(11), xn(4097), xn(4))), ("200Kr", xl(xn(3), xn(13), xn(3200), xn(6)))]
-BODY_LEN = {"1Mz": 1048576, "1Mr": 1048576, "64Kr": 65536, "64Kz": 65536, "64K+r": 4097 * 16, "200Kr": 3200 * 64, "0": 0, "1": 1, "49": 49,
+BIG_BODIES = [("64K+r", xl(xn(3), xn(11), xn(4097), xn(4))), ("64Kz", xl(xn(1), xn(97), xn(65536))), ("1M+z", xl(xn(1), xn(0), xn(1048593))),
+              ("1M+r", xl(xn(3), xn(5), xn(4099), xn(8))), ("200Kr", xl(xn(3), xn(13), xn(3200), xn(6))), ("64Kr", xl(xn(3), xn(9), xn(4096), xn(4)))]
+BODY_LEN = {"1M+z": 1048593, "1M+r": 4099 * 256, "64Kr": 65536, "64Kz": 65536, "64K+r": 4097 * 16, "200Kr": 3200 * 64, "0": 0, "1": 1, "49": 49,
             "50": 50, "51": 51, "50r": 50, "4Kz": 4096, "4Kr": 4096, "600r": 600, "300t": 12 + 18 * 16 + 14}
 
 
@@ -302,16 +302,18 @@ def random_levels(rng, big=False):
 
 
 def pipe_case(body, ctype, compress, cache, p1, p2, reqs, meta, hce=None, status=200, levels=DEFAULT_LEVELS):
-    """reqs: list of (ae, n[, method[, kind]]): n = 0 a single request; n >= 2 that many concurrent ones (kind 1: joined on one
+    """reqs: list of (ae, n[, method[, kind[, more field lines]]]): n = 0 a single request; n >= 2 that many concurrent ones (kind 1: joined on one
     thread, kind 2: spawned on a multi-thread runtime)."""
     bname, bspec = body
     norm = []
+    xreqs = []
     for r in reqs:
         ae, n = r[0], r[1]
         method = r[2] if len(r) > 2 else GET
         kind = (r[3] if len(r) > 3 else 1) if n else 0
+        more = r[4] if len(r) > 4 else []          # further Accept-Encoding field lines (only with a first one)
         norm.append((ae, n, method, kind))
-    xreqs = [xl(xn(kind), xopt(None if ae is None else xb(ae)), xn(method), xn(n if n else 1)) for ae, n, method, kind in norm]
+        xreqs.append(xl(xn(kind), xopt(None if ae is None else xb(ae)), xn(method), xn(n if n else 1), xlist([xb(v) for v in more])))
     lv = xl(xsigned(levels[0][0]), xn(levels[0][1]), xn(levels[0][2]), xsigned(levels[1][0]), xn(levels[1][1]), xn(levels[1][2]))
     x = xl(xl(bspec, xopt(None if ctype is None else xb(ctype[0])), xbool(compress), xbool(cache), xn(p1), xn(p2),
               xopt(None if hce is None else xb(hce)), xn(status), lv), xlist(xreqs))
@@ -396,8 +398,14 @@ def generate(rng, tier):
                                        [(b"gzip", 0, HEAD), (b"gzip", 0, GET), (b"br", 0, POST), (b"gzip, br", 0, GET), (None, 0, HEAD),
                                         (b"identity;q=0", 0, HEAD)],
                                        {"kind": "pipe/method-status", "grammar": True}, hce=hce, status=status))
+    # a second (third) Accept-Encoding field line: the code reads the first one only, and so do model and oracles
+    for first, more in ((b"gzip", [b"gzip;q=0"]), (b"gzip;q=0", [b"gzip"]), (b"br", [b"identity;q=0"]), (b"identity;q=0", [b"br"]),
+                        (b"deflate", [b"zstd", b"br"]), (b"identity;q=0, zstd", [b"zstd;q=0", b"*;q=0"])):
+        for cache in (True, False):
+            cases.append(pipe_case(B300, text, True, cache, 3, 3, [(first, 0, GET, 0, more), (first, 0, GET, 0, more)],
+                                   {"kind": "pipe/field-lines", "grammar": True}))
     # big bodies: every coding, incompressible and highly compressible, cached and one-shot
-    big = BIG_BODIES if not quick else BIG_BODIES[:4]
+    big = BIG_BODIES if not quick else BIG_BODIES[:5]
     for i, b in enumerate(big):
         for cache in (True, False) if not quick else (i % 2 == 0,):
             cases.append(pipe_case(b, text, True, cache, 0, 0, [(b"gzip", 0), (b"br", 2), (b"zstd", 0), (b"gzip", 0, HEAD)],
@@ -809,54 +817,88 @@ def describe(c):
     return d
 
 
-RULE = ("(a) neg.pipe: the real kvarn::handle_cache, in process, on one page per case: body in {0, 1, 49, 50, 51 bytes, 300 bytes of text, 4 KiB zeros, "
-        "4 KiB pseudo-random; thorough: + 64 KiB, 1 MiB zeros, 1 MiB pseudo-random} x 46 content types (every branch of do_compress, unparsable, "
-        "non-ASCII) x handler opt-out x cached / one-shot option sets x the four preferred algorithms (independently for both sets) x 1-4 requests "
-        "(single, or n = 2..64 concurrent ones joined on one thread) with Accept-Encoding from the RFC 7231 grammar (codings, q in {0, 0.0, 0.000, 0., "
-        "0.5, 0.001, 0.999, 1, 1.0, 1.000, .5, 1e-46 written out, ...}, OWS, duplicates, unknown codings, *), mutated / random garbage, non-ASCII "
-        "bytes, none.  The harness decodes every reply body with the standard decoder of the algorithm named in content-encoding (flate2 MultiGzDecoder, "
-        "brotli BrotliDecompress, zstd decode_all) and reports status, label, complete-stream, decoded == identity body (also == CacheReply.identity_body), "
-        "length, bytes == identity bytes, bytes == bytes of the first reply with this label; the extracted model predicts the same tuple (its encoders are "
-        "stand-ins: only label / status / equalities are compared).  (b) neg.list_header: kvarn_utils::parse::list_header directly, dev and nochk profiles, "
-        "on grammar, mutated and random UTF-8 text, compared with the byte-level model (qualities by class: == 0.0, == 1.0, other).  (c) neg.mime: "
-        "Mime::from_str + comprash::do_compress vs the model's stand-in parser and do_compress.  Spec oracles independent of the model (extra_oracle): "
-        "every 200 reply decodes as a complete stream to exactly the identity body; its label is identity / absent(empty body) or a coding listed with "
-        "non-zero quality per a reference reading of Accept-Encoding (split on ',', strip OWS, weight after ';'); bodies < 50 bytes, opted-out handlers and "
-        "content types marked not compressible in a hand-written table are sent as identity; 406 only if identity is refused per the reference reading; "
-        "repeated replies with one label carry the same bytes; list_header on a grammar header equals the reference parse.  "
+RULE = ("(a) neg.pipe: the real kvarn::handle_cache, in process, on one page per case: body in {0, 1, 49, 50, 51 bytes, 300 bytes of text, 600 "
+        "pseudo-random bytes, 4 KiB zeros / pseudo-random; 64 KiB + 16 and 1 MiB + 768 incompressible (a pseudo-random block under 2^d xor masks), "
+        "64 KiB and 1 MiB + 17 of one byte; thorough: + 200 KiB, 64 KiB exactly} x 46 content types (every branch of do_compress, unparsable, non-ASCII, "
+        "absent = sniffed) x handler opt-out x a content-encoding header of the handler's own (identity / gzip / br) x status (200, 201, 403, 404, 410, "
+        "500: admitted to the cache or not) x cached / one-shot option sets x the four preferred algorithms x every compression level (zstd -7..22, "
+        "brotli 0..11, gzip 0..9, independently for both option sets) x 1-6 request groups (GET / HEAD / POST; single, n = 2..64 concurrent futures "
+        "joined on one thread, or n tasks spawned behind a barrier on a 4-worker multi-thread runtime; a second and third Accept-Encoding field line) "
+        "with Accept-Encoding from the RFC 7231 grammar (codings in any case, *, q in {0, 0.0, 0.000, 0., 0.5, 0.001, 0.999, 1, 1.0, 1.000, .5, 1e-46 "
+        "written out, ...} and every other text f32::from_str accepts or just not: 0e0, -0, +0.0, 1e-50, 7e-46 / 8e-46 (the binary32 rounding "
+        "boundary), inf, NaN, 1e, ...; OWS, duplicates, unknown codings), mutated / random garbage, non-ASCII bytes, none.  The harness decodes every "
+        "reply body with the standard decoder of the algorithm named in content-encoding (flate2 MultiGzDecoder, brotli BrotliDecompress, zstd "
+        "decode_all) and reports status, label, complete-stream, decoded == identity body (also == CacheReply.identity_body), length, bytes == identity "
+        "bytes, and whether the buffer sent is the very allocation an earlier reply carried (the memoised bytes: pointer identity, all replies kept "
+        "alive); the extracted model predicts the same tuple (its encoders are stand-ins: label / status / equalities / reuse are compared).  "
+        "(b) neg.spec: the executable Coq specification spec_verdict (must-be-406, identity allowed, codings allowed) evaluated on the same input and "
+        "checked against every reply of the implementation.  (c) neg.list_header: kvarn_utils::parse::list_header directly, dev and nochk profiles, on "
+        "grammar, mutated and random UTF-8 text, compared with the byte-level model (qualities by class: == 0.0, == 1.0, other; outside the grammar "
+        "compared by what the negotiation can see: the number of values and those naming gzip / br / zstd / identity / *).  (d) neg.mime: "
+        "Mime::from_str + comprash::do_compress vs the model's stand-in parser and do_compress.  Spec oracles independent of the model (extra_oracle, "
+        "also on the cases the model does not cover): every non-406 reply has the handler's status and decodes as a complete stream to exactly the "
+        "identity body; its label is identity / the handler's own (empty body) or a coding listed with non-zero quality per a reference reading of "
+        "Accept-Encoding (split on ',', strip OWS, weight after ';', exact binary32 class of the weight by rational arithmetic); identity is never sent "
+        "to a client whose header forbids it (identity;q=0 in any case, or *;q=0 without an identity member); bodies < 50 bytes, opted-out handlers and "
+        "already-compressed media types (png, jpeg, woff2, mp4, ogg, pdf, zip, zstd, gzip) are never sent compressed; 406 only if identity is "
+        "forbidden, and never when a listed coding applies to a plain text type of >= 50 bytes; a later GET / HEAD of a cached page that is sent a "
+        "coding an earlier one was sent carries the memoised buffer; list_header on a grammar header equals the reference parse.  "
         "distinct_nontrivial = distinct (input, model outcome) with a compressed label or a 406 (pipe), a zero / other quality (list_header), any (mime)")
 ASSUMPTIONS = [
     "encoders (flate2 GzEncoder, brotli CompressorWriter, zstd Encoder) are a Section variable; lossless_partial assumes a decoder inverts them and "
-    "that their output is non-empty; this is validated on every run by the standard decoders on the bytes kvarn sends, not proved (DEFLATE / Brotli / "
-    "Zstandard have no Gallina model here)",
-    "f32::from_str and Mime::from_str are Section variables in every theorem; the correspondence run instantiates them with stand-ins exact on plain "
-    "decimals (digits with at most one '.', compared exactly against the binary32 rounding thresholds) and on 'type/subtype[+suffix][; charset=utf-8]'; "
-    "list members ending in a signed / exponent / inf / nan form and a sniffed (absent) content type on a non-empty body are out of domain and counted",
+    "that their output is non-empty; this is validated on every run by the standard decoders on the bytes kvarn sends (every level, bodies up to "
+    "1 MiB, compressible and not), not proved (DEFLATE / Brotli / Zstandard have no Gallina model here)",
+    "f32::from_str and Mime::from_str are Section variables in every theorem; the correspondence run instantiates them with stand-ins: the full "
+    "grammar of f32::from_str (sign, exponent, inf / nan) classified exactly against the binary32 rounding boundaries, and "
+    "'type/subtype[+suffix][; charset=utf-8]'; a sniffed (absent) content type on a non-empty body is out of the model's domain (counted; the spec "
+    "oracles still judge those replies)",
     "memo cell: sequentially consistent interleavings only; the unsynchronised UnsafeCell write is a data race in Rust's memory model and nothing is "
-    "claimed about it; the run exercises the interleavings that n futures joined on one thread produce (all check, all compute, first writes)",
-    "the handler sets no content-encoding of its own; check_content_type only appends a charset parameter (type / subtype unchanged); GET, status 200, "
-    "no vary rules; admission to the response cache is C04's subject (here: ServerCachePreference::Full => cached, None => not cached)",
+    "proved about it; the run exercises n futures joined on one thread and n tasks released together on a 4-worker runtime (every reply decoded, "
+    "all carrying one buffer), which cannot show the absence of a torn write",
+    "n concurrent requests that arrive before the page has a cache entry: the model takes the schedule in which all of them miss the cache (each "
+    "compresses for itself); on the real code a late one may find the entry an early one inserted, so the 'memoised buffer' flag of that one group "
+    "is not compared (everything else is)",
+    "a content-encoding header set by the handler is modelled as the code treats it: the handler's bytes are the identity body, the header is "
+    "replaced for a non-empty body (handler_coding_overwritten) and kept on an empty one (lossless_partial excludes a non-identity one there); "
+    "check_content_type only appends a charset parameter (type / subtype unchanged); no vary rules; admission to the response cache follows "
+    "ServerCachePreference::Full / None, default_status_code_cache_filter and GET / HEAD (C04's subject otherwise); Range is applied later, in "
+    "SendKind::send, to the coded body (C09's subject)",
+    "only the first Accept-Encoding field line is read (headers().get): modelled, generated and judged as such",
     "list_header_wf: names made only of number characters (0-9 . + - e E and the letters of inf / nan / infinity) are excluded, a member without weight "
-    "is given the f32 value of the text in front of it (Accept-Encoding: 0 yields quality 0.0 for the coding '0'); no registered coding has such a name",
-    "not interpreted by the code and stated as such (examples star_is_not_interpreted, floor_beats_refusal): '*' (also '*;q=0'), case-insensitive coding "
-    "names, and identity;q=0 on bodies under the floor / opted-out handlers (RFC 7231 5.3.4 lets a server answer without content-coding there)",
+    "is given the f32 value of the text in front of it (Accept-Encoding: 0 yields quality 0.0 for the coding '0'); no registered coding has such a name; "
+    "a weight written 'Q=' (capital) starts at the first digit or '.', so it is in the reference grammar with plain decimals only",
+    "not interpreted by the code and stated as such: '*' with a non-zero quality makes no coding acceptable (the property asks for a LISTED coding), "
+    "coding names other than identity are compared case-sensitively ('GZIP' is an unknown coding: identity is sent)",
 ]
 TRUSTED = ["modelled: utils/src/parse.rs list_header (+ trim_ows); src/comprash.rs do_compress, CompressionOptions, CompressedResponse::{new (floor), "
-           "clone_preferred, clone_identity_set_compression, get_gzip/get_br/get_zstd}; src/lib.rs handle_cache 406 mapping and the cached / one-shot "
-           "option choice; http::HeaderValue::to_str as visible-ASCII-or-TAB",
-           "standard decoders in the harness: flate2 1.x MultiGzDecoder, brotli 7 BrotliDecompress, zstd 0.13 decode_all (harness/src/c00pipe.rs decode_body)"]
-LEVEL_TEXT = ("Coq theorems about a byte-level model of list_header and a transcription of clone_preferred, for every header value, body, content type, "
-              "option set and (memo cell) every interleaving: chosen coding is identity or listed with quality != 0.0 (chosen_is_listed, never_refused; for arbitrary text its name occurs in the header: chosen_occurs_in_header); "
-              "identity;q=0 is honoured past the floor (identity_refusal_honoured); < 50 bytes / opt-out / uncompressible content type => identity "
-              "(floors, floors_content_type); the label names exactly the encoder whose output is sent and the memo cell keeps it (label_matches_body, "
-              "memoised_bytes_reused); 406 <=> identity refused and nothing else applies (not_acceptable_iff); preferred-then-zstd-br-gzip order "
-              "(preference_order); list_header = reference parse on the RFC 7231 grammar with OWS (list_header_wf) and total with at most commas+1 values "
-              "(list_header_total); memo cell invariant, write-once and completion under all SC interleavings of n tasks (memo_invariant, memo_write_once, "
-              "memo_completes).  PARTIAL: lossless_partial (every reply of every history decodes to the identity body) is relative to the hypothesis that a "
-              "decoder inverts the encoder; that hypothesis is validated, not proved, by decoding every reply of the run with the standard decoders.  "
-              "list_header_ows_v0_refuted: the grammar header on which kvarn 0.6.3's list_header was not the reference parse (repaired by fix: 7270dfd).")
+           "clone_preferred, clone_identity_set_compression, get_gzip/get_br/get_zstd}; src/lib.rs handle_cache 406 mapping, the cached / one-shot "
+           "option choice, get_cache (status filter, method) and the cache lookup for GET / HEAD; http::HeaderValue::to_str as visible-ASCII-or-TAB",
+           "standard decoders in the harness: flate2 1.x MultiGzDecoder, brotli 7 BrotliDecompress, zstd 0.13 decode_all (harness/src/c00pipe.rs decode_body)",
+           "Bytes::as_ptr equality of two live buffers as 'the same allocation' (memoised-buffer observation)"]
+LEVEL_TEXT = ("Coq theorems about a byte-level model of list_header and a transcription of clone_preferred / handle_cache's use of it, for every header "
+              "value, body, content type, handler content-encoding, status, method, option set and (memo cell) every interleaving: chosen coding is identity "
+              "or listed with quality != 0.0 (chosen_is_listed, never_refused; for arbitrary text its name occurs in the header: chosen_occurs_in_header); "
+              "'the client forbids identity' = identity;q=0 in any case, or *;q=0 without an identity member (refuses_identity_iff), and then identity is "
+              "NEVER sent, whatever the body size, opt-out or content type (identity_refusal_honoured, no side condition any more); < 50 bytes / opt-out "
+              "=> identity or, if forbidden, 406, no memo cell touched (floors); uncompressible content type likewise (floors_content_type); 406 <=> "
+              "identity forbidden and nothing else applies, i.e. not compressed at all or no coding listed (not_acceptable_iff, full equivalence); the "
+              "label names exactly the encoder whose output is sent, the memo cell keeps it, a handler's own content-encoding never survives on a "
+              "non-empty body (label_matches_body, handler_coding_overwritten, memoised_bytes_reused, memoised_reply: a reply flagged memoised carries "
+              "the cell's bytes and leaves them there); every reply of every history of a page — any status, GET / HEAD / other methods, cached or not, "
+              "groups of concurrent requests, from a cold cache — is allowed by the executable specification spec_verdict (serve_meets_spec; the same "
+              "spec_verdict judges every reply of the real code on each run); preferred-then-zstd-br-gzip order (preference_order); list_header = "
+              "reference parse on the RFC 7231 grammar with OWS (list_header_wf) and total with at most commas+1 values (list_header_total); memo cell "
+              "invariant, write-once and completion under all SC interleavings of n tasks (memo_invariant, memo_write_once, memo_completes).  PARTIAL: "
+              "lossless_partial (every reply of every such history decodes to the identity body) is relative to the hypothesis that a decoder inverts "
+              "the encoder; that hypothesis is validated, not proved, by decoding every reply of the run with the standard decoders.  Refuted for kvarn "
+              "0.6.3 and repaired: list_header_ows_v0_refuted (7270dfd), identity_refusal_floor_v0_refuted / identity_refusal_optout_v0_refuted "
+              "(identity;q=0 ignored under the floor / for opted-out handlers: 46abfcf), identity_refusal_star_v0_refuted (*;q=0: fb022d9), "
+              "identity_refusal_case_v0_refuted (Identity;q=0: 1fc432a).")
 LEVEL_NOTE = ("Trusted: Coq kernel; extraction (sample re-checked in-kernel); hand transcription of the anchored code validated by the differential run on "
               "handle_cache / list_header / do_compress; the three decoder crates as the definition of 'standard decoder'; SC memory for the memo cell. "
-              "No axioms. Encoder losslessness: validated per run, not proved.")
-TECHNIQUE = ("Coq proof (state-machine invariant for list_header, case analysis of clone_preferred, inductive invariant over all schedules for the memo "
-             "cell) + differential correspondence on kvarn::handle_cache with standard decoders as spec oracle")
+              "No axioms. Encoder losslessness: validated per run, not proved. Not covered: streaming responses (compress is forced off for them and, "
+              "since 46abfcf, a forbidden identity does not turn them into a 406), Range over coded bodies (C09), more than one Accept-Encoding field "
+              "line (first one only, as the code reads it).")
+TECHNIQUE = ("Coq proof (state-machine invariant for list_header, case analysis of clone_preferred, lifting over all histories of a page, inductive "
+             "invariant over all schedules for the memo cell) + differential correspondence on kvarn::handle_cache with the Coq specification and "
+             "standard decoders as spec oracles")
